@@ -43,6 +43,13 @@ SPEC = [
         "methods": ["n_samples", "linear_sum", "replace_n_samples_and_linear_sum", "add_to_n_samples_and_linear_sum",
                     "update", "merge_subcluster"],
         "slots": True}),
+    ("bblean/bitbirch.py", {
+        "classes": ["BitBirch"],
+        "methods": ["__init__", "tolerance", "merge_criterion", "set_merge"],
+        # the configuration part of the estimator: only these attributes are followed; `__init__` is translated up to the
+        # first statement outside the supported subset, and the rest is checked not to assign them
+        "fields": ["threshold", "branching_factor", "_merge_accept_fn"],
+        "partial_init": True}),
 ]
 # a parameter annotated with this class is a merge-function object (class name :: attributes); calling it dispatches on the
 # class name to the translated `__call__` of that class (generated function `<base>_call`)
@@ -54,6 +61,8 @@ EFFECTS = {"_madvise_dontneed"}
 DROPPED_CALLS = {"warnings.warn"}
 # module-level constants that become parameters
 MODULE_SYMBOLS = {"mmap.PAGESIZE": "mmap_PAGESIZE"}
+# module-level variables that become parameters when read
+GLOBAL_SYMBOLS = {"_global_merge_accept"}
 NP_WIDTH = {"uint8": ".u8", "uint16": ".u16", "uint32": ".u32", "uint64": ".u64"}
 LEAN_RESERVED = {"at", "from", "to", "in", "fun", "end", "open", "show", "have", "then", "else",
                  "if", "let", "do", "match", "with", "def", "Type", "instance", "class", "where",
@@ -108,6 +117,8 @@ class FnInfo:
 class Translator:
     def __init__(self):
         self.table = []      # (lean name, arity, kind) of every generated function, for `dispatch`
+        self.dispatch_classes = []   # subclasses of DISPATCH_BASE with a translated __call__
+        self.dispatch_attrs = set()  # attribute names of those classes (instance attributes and class-level constants)
         self.fns = {}        # python name -> FnInfo (module-level functions)
         self.classes = {}    # class name -> dict(bases, init_owner, attrs, fields, methods)
         self.out = []
@@ -141,6 +152,9 @@ class Translator:
             return self.const(e.value, e)
         if isinstance(e, ast.Name):
             if e.id in cx["locals"] or e.id in cx["params"]:
+                return ident(e.id)
+            if e.id in GLOBAL_SYMBOLS:
+                cx["symbols"].add(ident(e.id))
                 return ident(e.id)
             raise Unsupported(f"free name {e.id} (line {e.lineno})")
         if isinstance(e, ast.UnaryOp):
@@ -203,6 +217,9 @@ class Translator:
                 raise Unsupported(f"attribute {src_of(e)} of an object parameter (line {e.lineno})")
             if e.attr == "hasobject":
                 return f"(PV.hasobject {self.expr(e.value, cx)})"
+            if isinstance(e.value, (ast.Name, ast.Attribute)) and e.attr in self.dispatch_attrs \
+                    and not (isinstance(e.value, ast.Name) and e.value.id in cx["opaque"]):
+                return f'({DISPATCH_BASE}_getattr {self.expr(e.value, cx)} "{e.attr}")'
             r = root_name(e)
             if t and r in cx["opaque"]:
                 s = ident(t)
@@ -271,6 +288,20 @@ class Translator:
             if e.keywords:
                 raise Unsupported(f"keywords in object call {src_of(e)} (line {e.lineno})")
             return "(" + " ".join([f"{DISPATCH_BASE}_call", "expf", ident(f.id)] + [self.expr(a, cx) for a in e.args]) + ")"
+        if isinstance(f, ast.Name) and f.id == "isinstance" and len(e.args) == 2 and flat(e.args[1]) == DISPATCH_BASE:
+            return f"({DISPATCH_BASE}_isinstance {self.expr(e.args[0], cx)})"
+        if isinstance(f, ast.Name) and f.id == "hasattr" and len(e.args) == 2 and isinstance(e.args[1], ast.Constant) \
+                and isinstance(e.args[1].value, str):
+            return f'({DISPATCH_BASE}_hasattr {self.expr(e.args[0], cx)} "{e.args[1].value}")'
+        if isinstance(f, ast.Name) and f.id in self.classes and f.id in self.dispatch_classes:
+            c = self.classes[f.id]
+            owner = c["init_owner"]
+            if owner is None:
+                if e.args or e.keywords:
+                    raise Unsupported(f"arguments to {f.id}() which has no __init__ (line {e.lineno})")
+                return f'(PV.mkObj "{f.id}" [])'
+            info = self.classes[owner]["init_info"]
+            return f'(PV.mkObj "{f.id}" (' + " ".join([info.lean_name, "expf"] + self.bind_args(info, e, cx)) + "))"
         if isinstance(f, ast.Attribute) and f.attr == "item" and len(e.args) == 1 and not e.keywords and src_of(e.args[0]) == "-1":
             return f"(PV.itemLast {self.expr(f.value, cx)})"
         if isinstance(f, ast.Name) and f.id == "max" and len(e.args) == 2 and not e.keywords:
@@ -321,17 +352,18 @@ class Translator:
                 if e.keywords or len(e.args) != len(cx["dataclass_fields"]):
                     raise Unsupported(f"constructor call {src_of(e)} (line {e.lineno})")
                 return "[" + ", ".join(self.expr(x, cx) for x in e.args) + "]"
-            if n in self.classes:
-                c = self.classes[n]
-                owner = c["init_owner"]
-                if owner is None:
-                    if e.args or e.keywords:
-                        raise Unsupported(f"arguments to {n}() which has no __init__ (line {e.lineno})")
-                    return f'[PV.str "{n}"]'
-                info = self.classes[owner]["init_info"]
-                args = self.bind_args(info, e, cx)
-                return f'(PV.str "{n}" :: ' + " ".join([info.lean_name, "expf"] + args) + ")"
+
         raise Unsupported(f"list-valued expression {src_of(e)} (line {e.lineno})")
+
+    def fields_now(self, cx):
+        return "[" + ", ".join(cx["selfattrs"][x] for x in self.classes[cx["cls"]]["fields"]) + "]"
+
+    def guarded(self, pad, var, cx, rest_txt, ind):
+        """after `let var := e` in a state-changing method with a status element: an exception in `e` ends the method"""
+        if not cx.get("status_first"):
+            return rest_txt
+        inner = "\n".join("  " + l for l in rest_txt.split("\n"))
+        return pad + f"PV.guardL {var} {self.fields_now(cx)} (\n" + inner + "\n" + pad + ")"
 
     # ---------------------------------------------------------------- statements
     def stmts(self, body, cx, kind, end, ind):
@@ -396,6 +428,12 @@ class Translator:
                 tgt = s.target
                 val = None if isinstance(tgt, ast.Subscript) else \
                     f"(PV.{o[0]} {self.expr(s.target, cx)} {self.expr(s.value, cx)})"
+            # obj.attr = v on a local variable holding a merge-function object (value semantics: see DESIGN, aliasing)
+            if isinstance(tgt, ast.Attribute) and isinstance(tgt.value, ast.Name) and tgt.value.id in cx["locals"] \
+                    and tgt.attr in self.dispatch_attrs and isinstance(s, ast.Assign):
+                nm = ident(tgt.value.id)
+                return pad + f'let {nm} := {DISPATCH_BASE}_setattr {nm} "{tgt.attr}" {self.expr(s.value, cx)}\n' \
+                    + self.guarded(pad, nm, cx, self.stmts(rest, cx, kind, end, ind), ind)
             # x.flags.writeable = False on a local view: no effect on values
             if isinstance(tgt, ast.Attribute) and flat(tgt) and flat(tgt).endswith(".flags.writeable") \
                     and root_name(tgt) in cx["locals"]:
@@ -425,13 +463,18 @@ class Translator:
             if isinstance(tgt, ast.Name):
                 name = ident(tgt.id)
                 cx2 = dict(cx, locals=cx["locals"] | {tgt.id})
-                return pad + f"let {name} := {val}\n" + self.stmts(rest, cx2, kind, end, ind)
+                return pad + f"let {name} := {val}\n" + self.guarded(pad, name, cx, self.stmts(rest, cx2, kind, end, ind), ind)
             t = flat(tgt)
             if t and t.startswith("self.") and t.count(".") == 1:
                 attr = tgt.attr
+                if cx.get("only_fields") is not None and attr not in cx["only_fields"]:
+                    raise Unsupported(f"assignment to self.{attr}, which is not followed (line {s.lineno})")
                 lean = "self_" + attr
                 cx2 = dict(cx, selfattrs=dict(cx["selfattrs"], **{attr: lean}))
                 cx2["written"] = cx.get("written", []) + ([attr] if attr not in cx.get("written", []) else [])
+                if cx.get("status_first"):
+                    return (pad + f"let v_ := {val}\n"
+                            + self.guarded(pad, "v_", cx, pad + f"let {lean} := v_\n" + self.stmts(rest, cx2, kind, end, ind), ind))
                 return pad + f"let {lean} := {val}\n" + self.stmts(rest, cx2, kind, end, ind)
             raise Unsupported(f"assignment target {src_of(tgt)} (line {s.lineno})")
         if isinstance(s, ast.Return):
@@ -450,10 +493,15 @@ class Translator:
             if name is None:
                 raise Unsupported(f"raise {src_of(s)} (line {s.lineno})")
             v = f'(PV.err "{name}")'
+            if cx.get("mutating"):
+                flds = self.classes[cx["cls"]]["fields"]
+                return pad + "[" + ", ".join([v] + [cx["selfattrs"][x] for x in flds]) + "]"
             return pad + (v if kind == "V" else f"[{v}]")
         if isinstance(s, ast.If):
             c = self.expr(s.test, cx)
-            ite = "PV.ite" if kind == "V" else "PV.iteL"
+            ite = "PV.ite" if kind == "V" else ("PV.iteLS" if cx.get("status_first") else "PV.iteL")
+            if cx.get("status_first"):
+                c = c + " " + self.fields_now(cx)
             a = self.stmts(list(s.body) + rest, cx, kind, end, ind + 2)
             b = self.stmts(list(s.orelse) + rest, cx, kind, end, ind + 2)
             return (pad + f"{ite} {c}\n" + pad + "  (\n" + a + "\n" + pad + "  )\n"
@@ -469,8 +517,7 @@ class Translator:
                 v = n.value
                 if isinstance(v, ast.Tuple):
                     return "L"
-                if isinstance(v, ast.Call) and isinstance(v.func, ast.Name) \
-                        and (v.func.id == "cls" or v.func.id in self.classes):
+                if isinstance(v, ast.Call) and isinstance(v.func, ast.Name) and v.func.id == "cls":
                     return "L"
         return "V"
 
@@ -533,22 +580,33 @@ class Translator:
         uses_effects = any(isinstance(n, ast.Call) and flat(n.func) in EFFECTS for n in ast.walk(fn))
         if uses_effects:
             mutating = False        # a procedure with recorded effects: effect list ++ fields (as before)
+        has_raise = any(isinstance(n, ast.Raise) for n in ast.walk(fn))
+        status_first = mutating and (has_return_value or has_raise)
         is_proc = is_method and not is_init and not has_return_value and not mutating
         kind = "L" if mutating else self.fn_kind(fn, is_init, is_proc)
         # opaque parameters: those whose attributes are read (other than by vocabulary methods)
         opaque = set()
         for n in ast.walk(fn):
             if isinstance(n, ast.Attribute) and isinstance(n.value, ast.Name) and n.value.id in params \
-                    and n.attr not in ("astype", "view"):
+                    and n.attr not in ("astype", "view") and n.attr not in self.dispatch_attrs:
                 opaque.add(n.value.id)
             if isinstance(n, ast.Call) and isinstance(n.func, ast.Name) and n.func.id == "isinstance" \
-                    and isinstance(n.args[0], ast.Name) and n.args[0].id in params:
+                    and isinstance(n.args[0], ast.Name) and n.args[0].id in params and flat(n.args[1]) != DISPATCH_BASE:
                 opaque.add(n.args[0].id)
         opaque -= set(objparams) | listparams
         cx = {"params": set(params) - opaque - set(objparams), "selfattrs": selfattrs, "symbols": set(),
               "locals": set(), "opaque": opaque, "dataclass_fields": fields if is_classmethod else None,
-              "written": [], "cls": cls, "objparams": objparams, "listparams": listparams, "mutating": mutating}
-        if is_init:
+              "written": [], "cls": cls, "objparams": objparams, "listparams": listparams, "mutating": mutating,
+              "status_first": status_first}
+        partial = is_init and self.classes[cls].get("partial_init")
+        if partial:
+            def end(c):
+                return "[" + ", ".join(["PV.pynone"] + [c["selfattrs"].get(x, "PV.pynone") for x in fields]) + "]"
+            cx["mutating"] = True       # `raise` keeps the fields assigned so far, preceded by the error
+            cx["status_first"] = True
+            cx["only_fields"] = set(fields)
+            cx["selfattrs"] = {x: "PV.pynone" for x in fields}
+        elif is_init:
             def end(c):
                 return "[" + ", ".join(c["selfattrs"][x] for x in sorted(c["selfattrs"])) + "]"
         elif is_proc:
@@ -559,10 +617,30 @@ class Translator:
                 return "eff_ ++ [" + ", ".join(c["selfattrs"][x] for x in attrs) + "]"
         elif mutating:
             def end(c):
-                return "[" + ", ".join(c["selfattrs"][x] for x in fields) + "]"
+                return "[" + ", ".join((["PV.pynone"] if status_first else []) + [c["selfattrs"][x] for x in fields]) + "]"
         else:
             end = None
-        body = self.stmts(fn.body, cx, kind, end, 1 + (1 if is_proc else 0))
+        stmts_src = list(fn.body)
+        if partial:
+            # the longest translatable prefix; the remaining statements must not assign the followed attributes
+            k = len(stmts_src)
+            while k > 0:
+                try:
+                    self.stmts(stmts_src[:k], dict(cx, symbols=set()), "L", end, 1)
+                    break
+                except Unsupported:
+                    k -= 1
+            if k == 0:
+                raise Unsupported(f"{qual}: no translatable prefix")
+            for st in stmts_src[k:]:
+                for n in ast.walk(st):
+                    if isinstance(n, (ast.Assign, ast.AugAssign, ast.AnnAssign)):
+                        for tg in (n.targets if isinstance(n, ast.Assign) else [n.target]):
+                            if isinstance(tg, ast.Attribute) and root_name(tg) == "self" and tg.attr in fields:
+                                raise Unsupported(f"{qual}: attribute {tg.attr} is assigned after the translated prefix (line {n.lineno})")
+            stmts_src = stmts_src[:k]
+            kind = "L"
+        body = self.stmts(stmts_src, cx, kind, end, 1 + (1 if is_proc else 0))
         if is_proc:
             body = "  let eff_ : List PV := []\n" + body.replace("\n    ", "\n  ") if False else \
                 "  let eff_ : List PV := []\n" + "\n".join(l[2:] if l.startswith("    ") else l for l in body.split("\n"))
@@ -573,7 +651,7 @@ class Translator:
             if p in objparams:
                 binders += [(ident(f"{p}_{f}"), "PV") for f in self.classes[objparams[p]]["fields"]]
             elif p in listparams:
-                binders.append((ident(p), "List PV"))
+                binders.append((ident(p), "PV"))
             else:
                 binders.append((ident(p), "PV"))
         binders += [(x, "PV") for x in symbols]
@@ -596,16 +674,18 @@ class Translator:
         if is_init:
             info.extra = False
         if mutating:
-            info.n_ret = 1 if has_return_value else 0
-            if has_return_value and any(isinstance(n, ast.Return) and n.value is None for n in ast.walk(fn)):
-                raise Unsupported(f"{qual}: bare return in a state-changing method that also returns values")
+            info.n_ret = 1 if status_first else 0
+
         info.objparams, info.listparams = objparams, listparams
         return info, cx
 
     def emit_dispatch(self, classes, path):
-        """`obj(*args)` for a merge-function object `obj = [class name, attributes...]`"""
+        """`obj(*args)`, `isinstance(obj, Base)`, `hasattr / getattr / setattr` for merge-function objects
+        `PV.obj "<class>" a b c` (attributes in sorted order, class-level string constants by lookup)"""
+        self.dispatch_classes = list(classes)
         n_args = None
-        rows = []
+        rows, isrows, hasrows, getrows, setrows = [], [], [], [], []
+        slots = ["s0", "s1", "s2"]
         for k in classes:
             fn = self.classes[k]["methods"]["__call__"]
             n = len(fn.args.args) - 1
@@ -614,13 +694,46 @@ class Translator:
             elif n != n_args:
                 raise Unsupported(f"__call__ of {k} takes {n} arguments, others {n_args}")
             attrs = self.classes[k]["attrs"] if self.classes[k]["init_owner"] else []
-            pat = ", ".join([f'PV.str "{k}"'] + [f"s{i}" for i in range(len(attrs))])
-            call = " ".join([f"{k}_call", "expf"] + [f"s{i}" for i in range(len(attrs))] + [f"a{i}" for i in range(n_args)])
-            rows.append(f"  | [{pat}] => {call}")
+            if len(attrs) > 3:
+                raise Unsupported(f"class {k} has more than three attributes")
+            # class-level constants, through the (single-inheritance) chain
+            consts, kk = {}, k
+            while kk in self.classes:
+                for ck, cv in self.classes[kk].get("consts", {}).items():
+                    consts.setdefault(ck, cv)
+                kk = self.classes[kk]["bases"][0] if self.classes[kk]["bases"] else None
+            self.dispatch_attrs |= set(attrs) | set(consts)
+            pat = f'PV.obj "{k}" ' + " ".join(slots[i] if i < len(attrs) else "_" for i in range(3))
+            call = " ".join([f"{k}_call", "expf"] + slots[:len(attrs)] + [f"a{i}" for i in range(n_args)])
+            rows.append(f"  | {pat} => {call}")
+            isrows.append(f'  | PV.obj "{k}" _ _ _ => PV.bool true')
+            for i, at in enumerate(attrs):
+                p3 = " ".join("v" if j == i else "_" for j in range(3))
+                hasrows.append(f'  | PV.obj "{k}" _ _ _, "{at}" => PV.bool true')
+                getrows.append(f'  | PV.obj "{k}" {p3}, "{at}" => v')
+                full = " ".join(slots)
+                upd = " ".join("v" if j == i else slots[j] for j in range(3))
+                setrows.append(f'  | PV.obj "{k}" {full}, "{at}" => PV.obj "{k}" {upd}')
+            for ck, cv in sorted(consts.items()):
+                hasrows.append(f'  | PV.obj "{k}" _ _ _, "{ck}" => PV.bool true')
+                getrows.append(f'  | PV.obj "{k}" _ _ _, "{ck}" => PV.str "{cv}"')
         args = " ".join(f"a{i}" for i in range(n_args))
-        self.out.append(f"/-- `{path}` : calling a `{DISPATCH_BASE}` object (class name :: attributes stored by `__init__`) -/")
-        self.out.append(f"def {DISPATCH_BASE}_call (expf : Rat → Rat) (obj : List PV) ({args} : PV) : PV :=\n  match obj with\n"
-                        + "\n".join(rows) + '\n  | _ => PV.err "TypeError"\n')
+        B = DISPATCH_BASE
+        self.out.append(f"/-- `{path}` : calling a `{B}` object (class name and the attributes stored by `__init__`) -/")
+        self.out.append(f"def {B}_call (expf : Rat → Rat) (obj : PV) ({args} : PV) : PV :=\n  match obj with\n"
+                        + "\n".join(rows) + '\n  | PV.err e => PV.err e\n  | _ => PV.err "TypeError"\n')
+        self.out.append(f"/-- `isinstance(x, {B})` for the translated subclasses -/")
+        self.out.append(f"def {B}_isinstance (x : PV) : PV :=\n  match x with\n" + "\n".join(isrows)
+                        + "\n  | PV.err e => PV.err e\n  | _ => PV.bool false\n")
+        self.out.append(f"/-- `hasattr(x, name)` -/")
+        self.out.append(f"def {B}_hasattr (x : PV) (name : String) : PV :=\n  match x, name with\n" + "\n".join(hasrows)
+                        + "\n  | PV.err e, _ => PV.err e\n  | _, _ => PV.bool false\n")
+        self.out.append(f"/-- `x.name` -/")
+        self.out.append(f"def {B}_getattr (x : PV) (name : String) : PV :=\n  match x, name with\n" + "\n".join(getrows)
+                        + '\n  | PV.err e, _ => PV.err e\n  | _, _ => PV.err "AttributeError"\n')
+        self.out.append(f"/-- `x.name = v` on an instance attribute (value semantics: the updated object is returned) -/")
+        self.out.append(f"def {B}_setattr (x : PV) (name : String) (v : PV) : PV :=\n  match x, name with\n" + "\n".join(setrows)
+                        + '\n  | PV.err e, _ => PV.err e\n  | _, _ => PV.err "AttributeError"\n')
 
     def init_attrs(self, fn):
         attrs = []
@@ -644,7 +757,12 @@ class Translator:
                 if flat(dec) not in ("dataclasses.dataclass", "dataclass"):
                     raise Unsupported(f"decorator @{src_of(dec)} on class {cname} (line {cdef.lineno})")
             bases = [b.id for b in cdef.bases if isinstance(b, ast.Name)]
-            meths = {n.name: n for n in cdef.body if isinstance(n, ast.FunctionDef)}
+            meths = {}
+            for n in cdef.body:
+                if isinstance(n, ast.FunctionDef):
+                    is_setter = any(isinstance(d, ast.Attribute) and d.attr in ("setter", "deleter") for d in n.decorator_list)
+                    if not is_setter:
+                        meths.setdefault(n.name, n)
             c = {"bases": bases, "methods": meths, "init_owner": None, "attrs": [], "fields": None}
             if spec.get("dataclass"):
                 c["fields"] = [n.target.id for n in cdef.body
@@ -655,6 +773,16 @@ class Translator:
                         c["fields"] = [e.value for e in n.value.elts]
                 if c["fields"] is None:
                     raise Unsupported(f"class {cname} has no __slots__ tuple")
+            if spec.get("fields"):
+                c["fields"] = list(spec["fields"])
+            c["partial_init"] = bool(spec.get("partial_init"))
+            c["consts"] = {n.targets[0].id: n.value.value for n in cdef.body
+                           if isinstance(n, ast.Assign) and isinstance(n.targets[0], ast.Name)
+                           and isinstance(n.value, ast.Constant) and isinstance(n.value.value, str)}
+            for n in cdef.body:
+                if isinstance(n, ast.AnnAssign) and isinstance(n.target, ast.Name) and isinstance(n.value, ast.Constant) \
+                        and isinstance(n.value.value, str):
+                    c["consts"][n.target.id] = n.value.value
             c["props"], c["mutators"] = {}, {}
             # resolve __init__ through the (single-inheritance) chain of translated classes
             k, owner = cname, None
